@@ -11,6 +11,7 @@ import (
 	"context"
 	"fmt"
 	"runtime"
+	"sort"
 	"strconv"
 	"sync"
 	"sync/atomic"
@@ -38,6 +39,63 @@ func goid() int64 {
 	return -1
 }
 
+// tlog is a sharded event log: every goroutine appends to its own shard (no contention, so the
+// log does not serialise the goroutines it observes); the order of events is the order of their
+// sequence numbers, drawn from one atomic counter at the moment the event is logged.  As with
+// hlog, invocations are logged before the call and responses after it returned, so sequence
+// order is consistent with real-time order.
+type tlog struct {
+	ctr    int64
+	mu     sync.Mutex
+	shards []*shard
+}
+
+type sev struct {
+	seq int64
+	ev  []any
+}
+
+type shard struct {
+	l   *tlog
+	mu  sync.Mutex
+	evs []sev
+}
+
+func (l *tlog) newShard() *shard {
+	sh := &shard{l: l}
+	l.mu.Lock()
+	l.shards = append(l.shards, sh)
+	l.mu.Unlock()
+	return sh
+}
+
+func (sh *shard) add(ev ...any) {
+	seq := atomic.AddInt64(&sh.l.ctr, 1)
+	sh.mu.Lock()
+	sh.evs = append(sh.evs, sev{seq, ev})
+	sh.mu.Unlock()
+}
+
+func (l *tlog) len() int { return int(atomic.LoadInt64(&l.ctr)) }
+
+func (l *tlog) snapshot() [][]any {
+	l.mu.Lock()
+	shards := append([]*shard(nil), l.shards...)
+	l.mu.Unlock()
+	var all []sev
+	for _, sh := range shards {
+		sh.mu.Lock()
+		all = append(all, sh.evs...)
+		sh.mu.Unlock()
+	}
+	sort.Slice(all, func(i, j int) bool { return all[i].seq < all[j].seq })
+	out := make([][]any, len(all))
+	for i, e := range all {
+		out[i] = e.ev
+	}
+	return out
+}
+
 func cfgThreads(c *Case) []map[string]any {
 	var out []map[string]any
 	if c.Cfg == nil {
@@ -59,8 +117,55 @@ func cfgInt(m map[string]any, k string, def int) int {
 }
 
 type gateSet struct {
-	mu sync.Mutex
-	gs map[int]*gate
+	mu      sync.Mutex
+	gs      map[int]*gate
+	behind  map[int]int    // goroutines spawned behind the gate so far
+	expect  map[int]*int32 // set at release time: how many goroutines start together
+	arrived map[int]*int32
+}
+
+// enter is called by a goroutine that starts behind gate i: wait for the gate, then line up with
+// the other goroutines of the group (bounded spin) so that they really run concurrently.
+func (s *gateSet) enter(i int) {
+	s.get(i).wait()
+	s.mu.Lock()
+	exp, arr := s.expect[i], s.arrived[i]
+	s.mu.Unlock()
+	if exp == nil || arr == nil {
+		return
+	}
+	atomic.AddInt32(arr, 1)
+	deadline := time.Now().Add(300 * time.Microsecond)
+	for n := 0; atomic.LoadInt32(arr) < atomic.LoadInt32(exp); n++ {
+		if n%64 == 63 && time.Now().After(deadline) {
+			return
+		}
+	}
+}
+
+func (s *gateSet) spawnedBehind(i int) {
+	s.mu.Lock()
+	if s.behind == nil {
+		s.behind = map[int]int{}
+	}
+	s.behind[i]++
+	s.mu.Unlock()
+}
+
+func (s *gateSet) open(i int) {
+	g := s.get(i)
+	s.mu.Lock()
+	if s.expect == nil {
+		s.expect = map[int]*int32{}
+		s.arrived = map[int]*int32{}
+	}
+	if s.expect[i] == nil {
+		n := int32(s.behind[i])
+		s.expect[i] = &n
+		s.arrived[i] = new(int32)
+	}
+	s.mu.Unlock()
+	g.release()
 }
 
 func (s *gateSet) get(i int) *gate {
@@ -86,14 +191,14 @@ func (s *gateSet) releaseAll() {
 }
 
 // finishScenario: final quiescence, snapshot, clean-up.
-func finishScenario(h *hlog, quiet bool, wg *sync.WaitGroup, final func(), cleanup func()) *Obs {
-	ok := quiesce(h, 5*time.Second, nil)
+func finishScenario(l *tlog, h *shard, quiet bool, wg *sync.WaitGroup, final func(), cleanup func()) *Obs {
+	ok := quiesce(l, 5*time.Second, nil)
 	quiet = quiet && ok
 	h.add("quiesce", ok)
 	if final != nil {
 		final()
 	}
-	evs := h.snapshot()
+	evs := l.snapshot()
 	cleanup()
 	done := make(chan struct{})
 	go func() { wg.Wait(); close(done) }()
@@ -144,7 +249,8 @@ func pollClosed(c chan struct{}) bool {
 
 // thread programs: ["set", v] ["value"] ["watch"] (watch = the documented observer loop; never ends)
 func runWatch(c *Case) *Obs {
-	h := &hlog{}
+	l := &tlog{}
+	h := l.newShard() // the controller's shard
 	var w xsync.Watchable[int]
 	ths := cfgThreads(c)
 	gates := &gateSet{}
@@ -154,14 +260,14 @@ func runWatch(c *Case) *Obs {
 	quiet := true
 	spawned := map[int]bool{}
 
-	value := func(t int) chan struct{} {
+	value := func(h *shard, t int) chan struct{} {
 		h.add("call-value", t)
 		v, ch := w.Value()
 		closed := pollClosed(ch)
 		h.add("ret-value", t, v, closed, ids.id(ch, v))
 		return ch
 	}
-	body := func(t int, prog []any) {
+	body := func(h *shard, t int, prog []any) {
 		for _, a_ := range prog {
 			a := a_.([]any)
 			switch a[0].(string) {
@@ -171,10 +277,10 @@ func runWatch(c *Case) *Obs {
 				w.Set(v)
 				h.add("ret-set", t)
 			case "value":
-				value(t)
+				value(h, t)
 			case "watch":
 				for {
-					ch := value(t)
+					ch := value(h, t)
 					select {
 					case <-ch:
 					case <-stop:
@@ -195,28 +301,32 @@ func runWatch(c *Case) *Obs {
 			g := cfgInt(ths[t], "gate", -1)
 			prog, _ := ths[t]["prog"].([]any)
 			h.add("spawn", t)
+			sh := l.newShard()
+			if g >= 0 {
+				gates.spawnedBehind(g)
+			}
 			wg.Add(1)
 			go func() {
 				defer wg.Done()
 				if g >= 0 {
-					gates.get(g).wait()
+					gates.enter(g)
 				}
-				if p, val := protect(func() { body(t, prog) }); p {
-					h.add("panic", t, fmt.Sprint(val))
+				if p, val := protect(func() { body(sh, t, prog) }); p {
+					sh.add("panic", t, fmt.Sprint(val))
 				}
 			}()
 		case "release":
 			h.add("release", num(op[1]))
-			gates.get(num(op[1])).release()
+			gates.open(num(op[1]))
 		case "quiesce":
-			ok := quiesce(h, 5*time.Second, nil)
+			ok := quiesce(l, 5*time.Second, nil)
 			quiet = quiet && ok
 			h.add("quiesce", ok)
 		}
 	}
 	var final []any
 	var finalClosed [][]any
-	o := finishScenario(h, quiet, &wg, func() {
+	o := finishScenario(l, h, quiet, &wg, func() {
 		v, ch := w.Value()
 		closed := pollClosed(ch)
 		final = []any{v, closed, ids.id(ch, v)}
@@ -238,7 +348,8 @@ func runWatch(c *Case) *Obs {
 
 // threads: {"kind":"fill","v":v} {"kind":"wait"} {"kind":"waitctx","ctx":c}, each with optional "gate"
 func runFuture(c *Case) *Obs {
-	h := &hlog{}
+	l := &tlog{}
+	h := l.newShard() // the controller's shard
 	f := xsync.NewFuture[int]()
 	ths := cfgThreads(c)
 	gates := &gateSet{}
@@ -269,46 +380,50 @@ func runFuture(c *Case) *Obs {
 				ctx = getCtx(cid)
 			}
 			h.add("spawn", t)
+			sh := l.newShard()
+			if g >= 0 {
+				gates.spawnedBehind(g)
+			}
 			wg.Add(1)
 			go func() {
 				defer wg.Done()
 				if g >= 0 {
-					gates.get(g).wait()
+					gates.enter(g)
 				}
 				switch kind {
 				case "fill":
-					h.add("call-fill", t, v)
+					sh.add("call-fill", t, v)
 					if p, _ := protect(func() { f.Fill(v) }); p {
-						h.add("panic-fill", t)
+						sh.add("panic-fill", t)
 					} else {
-						h.add("ret-fill", t)
+						sh.add("ret-fill", t)
 					}
 				case "wait":
-					h.add("call-wait", t)
+					sh.add("call-wait", t)
 					x := f.Wait()
-					h.add("ret-wait", t, x)
+					sh.add("ret-wait", t, x)
 				case "waitctx":
-					h.add("call-waitctx", t, cid)
+					sh.add("call-waitctx", t, cid)
 					x, err := f.WaitContext(ctx)
-					h.add("ret-waitctx", t, x, err != nil)
+					sh.add("ret-waitctx", t, x, err != nil)
 				}
 			}()
 		case "release":
 			h.add("release", num(op[1]))
-			gates.get(num(op[1])).release()
+			gates.open(num(op[1]))
 		case "cancel":
 			h.add("cancel", num(op[1]))
 			cmu.Lock()
 			ctxs.cancel(num(op[1]))
 			cmu.Unlock()
 		case "quiesce":
-			ok := quiesce(h, 5*time.Second, nil)
+			ok := quiesce(l, 5*time.Second, nil)
 			quiet = quiet && ok
 			h.add("quiesce", ok)
 		}
 	}
 	filled := false
-	o := finishScenario(h, quiet, &wg, nil, func() {
+	o := finishScenario(l, h, quiet, &wg, nil, func() {
 		gates.releaseAll()
 		cmu.Lock()
 		ctxs.cancelAll()
@@ -334,7 +449,8 @@ func runFuture(c *Case) *Obs {
 // cfg: fgated (f waits for ["release-f"]), fbase (f returns fbase + its invocation number);
 // every thread calls the lazy value "calls" times (default 1).
 func runLazy(c *Case) *Obs {
-	h := &hlog{}
+	l := &tlog{}
+	h := l.newShard() // the controller's shard
 	ths := cfgThreads(c)
 	gates := &gateSet{}
 	fgate := newGate()
@@ -343,20 +459,23 @@ func runLazy(c *Case) *Obs {
 	var count int32
 	var wmu sync.Mutex
 	who := map[int64]int{}
+	whoShard := map[int64]*shard{}
 	lazy := xsync.Lazy(func() int {
 		n := int(atomic.AddInt32(&count, 1))
 		wmu.Lock()
 		t, ok := who[goid()]
+		sh := whoShard[goid()]
 		wmu.Unlock()
 		if !ok {
 			t = -1
+			sh = l.newShard()
 		}
-		h.add("f-enter", t, n)
+		sh.add("f-enter", t, n)
 		if fgated {
 			fgate.wait()
 		}
 		v := fbase + n
-		h.add("f-exit", t, v)
+		sh.add("f-exit", t, v)
 		return v
 	})
 	var wg sync.WaitGroup
@@ -373,34 +492,39 @@ func runLazy(c *Case) *Obs {
 			g := cfgInt(ths[t], "gate", -1)
 			calls := cfgInt(ths[t], "calls", 1)
 			h.add("spawn", t)
+			sh := l.newShard()
+			if g >= 0 {
+				gates.spawnedBehind(g)
+			}
 			wg.Add(1)
 			go func() {
 				defer wg.Done()
 				wmu.Lock()
 				who[goid()] = t
+				whoShard[goid()] = sh
 				wmu.Unlock()
 				if g >= 0 {
-					gates.get(g).wait()
+					gates.enter(g)
 				}
 				for i := 0; i < calls; i++ {
-					h.add("call-lazy", t)
+					sh.add("call-lazy", t)
 					v := lazy()
-					h.add("ret-lazy", t, v)
+					sh.add("ret-lazy", t, v)
 				}
 			}()
 		case "release":
 			h.add("release", num(op[1]))
-			gates.get(num(op[1])).release()
+			gates.open(num(op[1]))
 		case "release-f":
 			h.add("release-f")
 			fgate.release()
 		case "quiesce":
-			ok := quiesce(h, 5*time.Second, nil)
+			ok := quiesce(l, 5*time.Second, nil)
 			quiet = quiet && ok
 			h.add("quiesce", ok)
 		}
 	}
-	o := finishScenario(h, quiet, &wg, nil, func() {
+	o := finishScenario(l, h, quiet, &wg, nil, func() {
 		gates.releaseAll()
 		fgate.release()
 	})
